@@ -102,6 +102,9 @@ template <typename view_t> static std::string graph(const view_t& v, const std::
 #define AXES (intsi(a,"axes"))
 #define KEEP nm::None, nm::None, nm::True
 #define DROP nm::None, nm::None, nm::False
+// number-valued sub-views: a reduction over ALL axes (axis None, keepdims false) is a 0-d, `is_num_v` view
+#define SUMALL(x) view::reduce_add(x, nm::None)
+#define MAXALL(x) view::reduce_maximum(x, nm::None)
 #define x0 L.r(0)
 #define x1 L.r(1)
 #define x2 L.r(2)
@@ -189,6 +192,25 @@ std::string handle(const std::string& op, const Args& a) {
     PROG("d4_add_nmn_sxn", view::add(view::negative(view::multiply(view::negative(x0), x1)), view::subtract(x2, view::negative(x3))))
     PROG("d4_sum_add_x_tr_neg", view::reduce_add(view::add(x0, view::transpose(view::negative(x1), AXES)), AXIS, DROP))
     PROG("d4_neg_sub_mul_neg", view::negative(view::subtract(view::multiply(view::negative(x0), x1), x2)))
+#elif C14_GROUP == 11
+    // a NUMBER-valued view (reduction over all axes) as an operand of a broadcasting binary ufunc, first / non-first position
+    GRAPH("mul_sumall_x",    view::multiply(SUMALL(x0), x1))
+    PROG("sub_maxall_x",     view::subtract(MAXALL(x0), x1))
+    PROG("mul_vsumall_x",    view::multiply(view::sum(x0, nm::None), x1))
+    PROG("add_x_maxall",     view::add(x0, MAXALL(x1)))
+    PROG("sub_sumall_x_rep", view::subtract(SUMALL(x0), x0))
+    PROG("sub_x_sumall_rep", view::subtract(x0, SUMALL(x0)))
+    PROG("mul_sumall_neg_x", view::multiply(SUMALL(view::negative(x0)), x1))
+    PROG("mul_sumall_sum_x", view::multiply(SUMALL(view::reduce_add(x0, AXIS, DROP)), x1))
+#elif C14_GROUP == 12
+    // nested: the number-valued view over a binary node / under further nodes, depth 3 and 4
+    PROG("neg_mul_sumall_mul_x", view::negative(view::multiply(SUMALL(view::multiply(x0, x1)), x2)))
+    PROG("add_mul_sumall_x_x",   view::add(view::multiply(SUMALL(x0), x1), x2))
+    PROG("tr_add_maxall_x",      view::transpose(view::add(MAXALL(x0), x1), AXES))
+    PROG("mul_x_sumall_mul",     view::multiply(x0, SUMALL(view::multiply(x1, x2))))
+    PROG("sum_mul_maxall_x",     view::reduce_add(view::multiply(MAXALL(x0), x1), AXIS, DROP))
+    if (prog == "al_mul_sumall") { auto a0 = view::alias(x0, 0_ct); auto a1 = view::alias(x1, 1_ct);
+        GRAPH("al_mul_sumall",   view::multiply(SUMALL(a0), a1)) }
 #endif
     return "unknown-prog";
 }
